@@ -1,5 +1,12 @@
 import Bmc.Proofs.C08
 #print axioms Bmc.Proofs.C08.message_roundtrip
 #print axioms Bmc.Proofs.C08.message_reencode
-#print axioms Bmc.Proofs.C08.v2_roundtrip_partial
+#print axioms Bmc.Proofs.C08.v2_roundtrip
+#print axioms Bmc.Proofs.C08.v2_reencode
+#print axioms Bmc.Proofs.C08.v1_roundtrip
+#print axioms Bmc.Proofs.C08.v1_length
+#print axioms Bmc.Proofs.C08.v1_reencode
+#print axioms Bmc.Proofs.C08.rakp1_roundtrip
+#print axioms Bmc.Proofs.C08.rakp1_toolong
+#print axioms Bmc.Proofs.C08.rakp1_reencode
 #print axioms Bmc.Proofs.C08.aes_roundtrip
